@@ -9,6 +9,8 @@ package main
 //@ func (*NegatedBoolValue).Set
 //@   modifies *v.value
 //@   ensures result == nil ==> *v.value == !parseBoolK(keyof(s))
+//@   call 0 strconv.ParseBool as pb
+//@   ensures (result == nil) == (pb1 == nil)
 
 // C14: gitconfig is consulted for an option family only when no option of
 // that family was given on the command line (Changed(...) false for all of
